@@ -137,8 +137,69 @@ def _layout(arr, layout, fill):
     raise ValueError(layout)
 
 
+def _big_mask(case):
+    """which entries of a compactly described ("big") weight vector are zero: every `zero_every`-th one from
+    `zero_phase` on, or a random subset (numpy RandomState(zero_seed), fraction zero_frac)"""
+    n = int(case["n"])
+    idx = numpy.arange(n)
+    if "zero_seed" in case:
+        mask = numpy.random.RandomState(int(case["zero_seed"])).random_sample(n) < float(Fraction(case["zero_frac"]))
+    else:
+        mask = (idx - int(case["zero_phase"])) % int(case["zero_every"]) == 0
+    if mask.all():
+        mask[n // 2] = False
+    return mask
+
+
+def _big_p(case):
+    """a long weight vector given compactly: n entries, the values `w` cycled over the positions, zeros at `_big_mask`"""
+    n = int(case["n"])
+    w = numpy.array([float(Fraction(v)) for v in case["w"]], dtype=numpy.dtype(case.get("pdtype", "float64")))
+    assert all(Fraction(float(x)) == Fraction(v) for x, v in zip(w, case["w"])), "weight not representable"
+    p = w[numpy.arange(n) % len(w)]
+    p[_big_mask(case)] = 0
+    return p
+
+
+def _big_spec(case, out, shape):
+    """the SUS clause of the property evaluated in exact arithmetic on a long vector (a = 0..n-1): same fields as the
+    Lean oracle c17.spec_sus (on the small cases the two are compared on every run)"""
+    p = _big_p(case)
+    n, k = len(p), _prod(_size_list(case["size"]))
+    out = numpy.asarray(out, dtype=numpy.int64)
+    members_ok = bool(((out >= 0) & (out < n)).all())
+    cnt = numpy.bincount(out[(out >= 0) & (out < n)], minlength=n)
+    vals = sorted(set(float(v) for v in numpy.unique(p)))
+    tot = sum(Fraction(v) * int((p == v).sum()) for v in vals)
+    outside = []
+    for v in vals:
+        e = k * Fraction(v) / tot
+        ok_counts = [c for c in range(max(0, math.floor(e) - 1), math.ceil(e) + 2) if c < e + 1 and e < c + 1]
+        bad = numpy.flatnonzero((p == v) & ~numpy.isin(cnt, ok_counts))
+        outside.extend(int(i) for i in bad)
+    zero = [int(i) for i in numpy.flatnonzero((p == 0) & (cnt != 0))]
+    length_ok = len(out) == k
+    return {"ok": bool(length_ok and members_ok and not outside and not zero), "length_ok": length_ok,
+            "members_ok": members_ok, "outside_floor_ceil": sorted(outside)[:20], "zero_weight_selected": zero[:20]}
+
+
+def _small_spec(case, out):
+    """the same clause for an ordinary case, in exact arithmetic (compared with the Lean oracle's verdict)"""
+    P = [Fraction(v) for v in case["p"]]
+    k = _prod(_size_list(case["size"]))
+    tot = sum(P)
+    cnt = Counter(out)
+    a = case["a"]
+    outside = [i for i in range(len(P)) if not (cnt.get(a[i], 0) < k * P[i] / tot + 1 and k * P[i] / tot < cnt.get(a[i], 0) + 1)]
+    zero = [i for i in range(len(P)) if P[i] == 0 and cnt.get(a[i], 0) != 0]
+    return {"length_ok": len(out) == k, "members_ok": all(v in a for v in out), "outside_floor_ceil": outside,
+            "zero_weight_selected": zero}
+
+
 def _parr(case):
     """the weight vector exactly as the implementation receives it (dtype and memory layout of the case)"""
+    if case.get("big"):
+        return _big_p(case)
     dt = case.get("pdtype", "float64")
     if dt == "float64":
         arr = _farr(case["p"])
@@ -151,9 +212,21 @@ def _parr(case):
 
 
 def _aarr(case):
+    if case.get("big"):
+        return numpy.arange(int(case["n"]))
     dt = case.get("adtype", "int64")
+    if dt == "float64h":        # options that are not whole numbers: the case's integers + 1/2
+        return _layout(numpy.array(case["a"], dtype=float) + 0.5, case.get("alayout"), -99)
     arr = numpy.array(case["a"], dtype=object if dt == "object" else numpy.dtype(dt))
     return _layout(arr, case.get("alayout"), -99)
+
+
+def _outvals(case, out):
+    """returned values as the integers of the case (`float64h`: minus 1/2; a value that is not one of the shifted
+    options maps to a sentinel, so that the membership clause fails)"""
+    if case.get("adtype") == "float64h":
+        return [int(float(v) - 0.5) if float(v) - 0.5 == int(float(v) - 0.5) else -10 ** 9 for v in numpy.asarray(out).ravel()]
+    return [int(v) for v in numpy.asarray(out).ravel()]
 
 
 def _size_call(case):
@@ -318,7 +391,11 @@ class C17(Prop):
             "a large common part 25000 / 2^24+1 / 2^30 / 10^9 (+ low bits) plus quarters or 1/4096ths; binary64 weights "
             "spanning 1e-12..1e12, all ~1e-8 / ~1e-5 / ~1e9), weights stored as uint8..uint64 / int8..int64 / float32 / "
             "float64, contiguous, strided or reversed views; 1-64 draws in 1-D to 4-D shapes, 127..1025 (thorough: 4097) "
-            "draws from 1-4 elements, 128-300 elements mostly of weight zero; numpy integers in `size`, `a` of other dtypes, "
+            "draws from 1-4 elements, 128-300 elements mostly of weight zero; the top end of the walk: 3-50 weights that are not "
+            "binary numbers, many ties, double or single precision, zeros in front / between / behind, offset 1-r*2^-53 or "
+            "1-2^-m of the spacing (last pointer at or beyond the running cumulative end); 2000-20000 tied float32 weights "
+            "with zeros spread over the vector and a request <= a third of the positive ones (Spec only); numpy integers "
+            "in `size`, `a` of other dtypes incl. non-integer values, "
             "rng=None; scripted offsets that put pointers exactly on cumulative-weight boundaries, genuine "
             "PCG64/MT19937/RandomState states incl. crafted MT19937 states with next variate 0.0 / 2^-53 / 1-2^-53 / "
             "1-r*2^-53; tiled choice: 1-9 (rarely 129-200) options, sizes below / equal / above multiples of the option "
@@ -326,7 +403,9 @@ class C17(Prop):
             "copy pymoo_addon.tiled_choice; axis shuffle: 1-D to 4-D arrays of distinct values in C / Fortran / strided / "
             "negative-stride / column-slice layouts, every subset of axes in any order, either sign, numpy integers, "
             "out-of-range entries; sliceaxisix itself incl. zero extents; outcross shuffle: tables of 1-6 crosses x 1-4 "
-            "parents (up to 24 entries) over a small id range (also ids beyond 8/16/31 bits) with forced selfs, the same "
+            "parents (up to 24 entries) over a small id range (also ids beyond 8/16/31 bits) with forced selfs, 4-8 selfed "
+            "crosses of 2-5 parents (long descents in which positions of different crosses that start with the same "
+            "individual end up with different ones), the same "
             "five memory layouts, the literal in-place loop replayed on the table's memory.  Non-trivial = SUS with "
             ">= 2 positive weights and >= 2 draws; tiled without replacement, >= 2 options, a remainder or >= 1 tile; "
             "axis case with >= 2 slices of length >= 2; outcross table with a repeated id in a row")
@@ -341,6 +420,9 @@ class C17(Prop):
                "sus_binary64_tie_counterexample evaluated on Lean's Float, corpus cases replayed on numpy); count, "
                "no-exception and zero-weight claims hold under ANY rounding (sus_loop_safe_under_any_rounding). Trusted: "
                "binary64 operations satisfy the standard model (no underflow), p.sum() has relative error <= (1+u)^(n-1) - 1",
+               "long weight vectors (2000-20000 entries, kind sus/big): the Spec is evaluated on the implementation's output "
+               "in exact arithmetic in Python (_big_spec; the same evaluation is compared with the Lean oracle c17.spec_sus "
+               "on every ordinary SUS case); the model is not run on them (correspondence not checked there)",
                "numpy views: `xconfig.flat[q]` / `a[s]` address the element at the offset computed from the array's strides "
                "(the harness computes the offsets it hands to the literal-loop model from __array_interface__/strides)"]
     ASSUMPTIONS = ["weights non-negative with positive sum; sizes include the empty request (0, (2,0), ...)",
@@ -352,6 +434,10 @@ class C17(Prop):
                    "within 2^-40 (relative to the total weight) of a cumulative-weight boundary; the Spec is never waived; "
                    "a Spec failure is attributed to finding D7g only when the call's binary64 arithmetic is inexact AND the "
                    "hypotheses of sus_floor_ceil_binary64_partial fail (both recomputed from the case in exact arithmetic)",
+                   "single-precision weights: the tie waiver and the D7g attribution use the unit roundoff 2^-24 of the "
+                   "arithmetic in which the total and the cumulative weights are then computed (theorem "
+                   "sus_floor_ceil_binary64_partial is stated for any u); long vectors are generated only where the clause "
+                   "is robust against the float32 gap between p.sum() and cumsum()[-1] (spacing >= 3 x largest weight)",
                    "documented but unsupported argument forms are not generated: tiled_choice(a=<int>) and size=None raise "
                    "on the unchanged tree (AttributeError / TypeError); the property text does not cover them"]
 
@@ -427,7 +513,60 @@ class C17(Prop):
             {"kind": "outcross", "nrow": 2, "ncol": 3, "x": [1, 1, 1, 1, 1, 2], "rng": {"gen": "randomstate", "seed": 2}},
             {"kind": "outcross", "nrow": 1, "ncol": 1, "x": [3], "rng": {"gen": "pcg64", "seed": 1}},
             {"kind": "outcross", "nrow": 2, "ncol": 2, "x": [1, 2, 3, 4], "rng": {"gen": "pcg64", "seed": 1}},
-        ] + self._corpus_round4(z, mx)
+        ] + self._corpus_round4(z, mx) + self._corpus_round5(z, mx)
+
+    @staticmethod
+    def _corpus_round5(z, mx):
+        pc = lambda s: {"gen": "pcg64", "seed": s}
+        rs = lambda s: {"gen": "randomstate", "seed": s}
+        f32 = lambda vals: canon.enc([float(numpy.float32(v)) for v in vals])
+        top = lambda s, m: {"gen": "scripted", "seed": s, "u": canon.enc(1 - Fraction(1, 1 << m))}
+        return [
+            # few parents tiled over selfed crosses: several accepted exchanges, positions of different crosses that hold
+            # the same individual at the start and different ones later (seeded change C17-c3 shows on these histories)
+            {"kind": "outcross", "nrow": 4, "ncol": 2, "x": [1, 1, 2, 2, 2, 2, 0, 0], "layout": "C", "rng": pc(11)},
+            {"kind": "outcross", "nrow": 4, "ncol": 2, "x": [1, 1, 2, 2, 2, 2, 0, 0], "layout": "C", "rng": rs(4)},
+            {"kind": "outcross", "nrow": 4, "ncol": 2, "x": [1, 1, 2, 2, 2, 2, 0, 0], "layout": "F", "rng": rs(14)},
+            {"kind": "outcross", "nrow": 4, "ncol": 2, "x": [0, 0, 2, 2, 0, 1, 2, 2], "layout": "C", "rng": pc(6)},
+            {"kind": "outcross", "nrow": 6, "ncol": 3, "x": [1, 1, 1, 2, 2, 2, 0, 0, 0] * 2, "layout": "C", "rng": pc(0)},
+            {"kind": "outcross", "nrow": 6, "ncol": 3, "x": [1, 1, 1, 2, 2, 2, 0, 0, 0] * 2, "layout": "C", "rng": rs(11)},
+            # a table one exchange away from the optimum (flat positions 2 and 4)
+            {"kind": "outcross", "nrow": 4, "ncol": 2, "x": [1, 2, 2, 2, 1, 0, 0, 2], "layout": "C", "rng": pc(1)},
+            # zero weights in front of / between the positive ones, weights that are not binary numbers (p.sum() and
+            # p[order].cumsum()[-1] round differently), offset at the very top of [0, spacing): the last pointer lies
+            # beyond the end of the running cumulative weights and must stay on the last element of positive weight
+            # (seeded change C17-e3 selects an element of weight zero here)
+            {"kind": "sus", "p": canon.enc([0.0, 0.1, 0.2, 0.0, 0.3]), "a": [1, 2, 3, 4, 5], "size": 2, "rng": mx,
+             "regime": "float"},
+            {"kind": "sus", "p": canon.enc([0.0, 0.1, 0.0, 0.2, 0.3, 0.1, 0.0, 0.2, 0.3]), "a": list(range(9)), "size": [2, 3],
+             "rng": mx, "regime": "float"},
+            {"kind": "sus", "p": canon.enc([0.0] + [0.1] * 8 + [0.0, 0.1]), "a": list(range(11)), "size": 5, "rng": mx,
+             "regime": "float"},
+            {"kind": "sus", "p": canon.enc([0.0, 0.7, 1.1, 0.0, 0.3, 2.3, 0.0, 1.1, 0.7]), "a": list(range(9)), "size": 7,
+             "rng": {"gen": "mt19937", "seed": 3, "craft": [M32, M32]}, "regime": "float"},
+            # the same in single precision (the stored weights are the float32 neighbours of 0.1, 0.2, 0.3)
+            {"kind": "sus", "p": f32([0.0, 0.1, 0.2, 0.0, 0.3] * 4), "pdtype": "float32", "a": list(range(20)), "size": 7,
+             "rng": mx, "regime": "float"},
+            {"kind": "sus", "p": f32([0.1, 0.0] * 25), "pdtype": "float32", "a": list(range(50)), "size": 12,
+             "rng": top(3, 20), "regime": "float"},
+            {"kind": "sus", "p": f32([0.0, 0.7, 1.1, 0.3, 2.3] * 4), "pdtype": "float32", "a": list(range(20)), "size": [3, 4],
+             "rng": top(4, 12), "regime": "float"},
+            # options / elements that are not whole numbers (a = the integers + 1/2)
+            {"kind": "tiled", "a": [5, 6, 7], "adtype": "float64h", "size": 8, "replace": False, "p": None, "rng": pc(6)},
+            {"kind": "tiled", "a": [5, 6, 7], "adtype": "float64h", "size": [2, 2], "replace": True, "p": None, "rng": pc(7)},
+            {"kind": "sus", "p": [3, 0, 2, 1], "a": [1, 2, 3, 4], "adtype": "float64h", "size": 6,
+             "rng": {"gen": "scripted", "seed": 18, "u": "3/4"}, "regime": "exact"},
+            # thousands of tied single-precision weights, zeros spread over the vector: the gap between p.sum() and the
+            # running cumulative sum is macroscopic (1e-4 of the total), an ordinary offset puts a pointer beyond the end
+            {"kind": "sus", "big": True, "n": 20000, "w": f32([0.1]), "zero_every": 10, "zero_phase": 0, "size": [40, 50],
+             "pdtype": "float32", "rng": rs(8), "regime": "float"},
+            {"kind": "sus", "big": True, "n": 20000, "w": f32([1.1]), "zero_every": 3, "zero_phase": 1, "size": 2000,
+             "pdtype": "float32", "rng": top(5, 3), "regime": "float"},
+            {"kind": "sus", "big": True, "n": 5000, "w": f32([0.7]), "zero_every": 7, "zero_phase": 2, "size": 600,
+             "pdtype": "float32", "rng": top(6, 6), "regime": "float"},
+            {"kind": "sus", "big": True, "n": 20000, "w": canon.enc([0.1]), "zero_every": 10, "zero_phase": 0, "size": 2000,
+             "pdtype": "float64", "rng": pc(9), "regime": "float"},
+        ]
 
     @staticmethod
     def _corpus_round4(z, mx):
@@ -549,7 +688,7 @@ class C17(Prop):
         if arrays and rng.random() < 0.08:
             c["alayout"] = rng.choice(["strided", "rev"])
         if arrays and rng.random() < 0.08:
-            c["adtype"] = rng.choice(["float64", "int32", "object"])
+            c["adtype"] = rng.choice(["float64", "float64h", "float64h", "int32", "object"])
         if rng.random() < 0.03:
             c["rng_none"] = True
         return c
@@ -641,12 +780,93 @@ class C17(Prop):
         return {"kind": "sus", "p": canon.enc(p), "a": rng.sample(range(-50, 200), n), "size": self._size(rng, k),
                 "rng": spec, "regime": self._regime(spec)}
 
+    TIE_SETS = [[0.1], [0.1, 0.2, 0.3], [0.7, 1.1, 0.3, 2.3], [0.3, 0.6], [1.7, 0.9, 0.1], [1e-3, 2e-3, 7e-3]]
+
+    def _gen_sus_top(self, rng):
+        """the top end of the walk: weights that are not binary numbers with many ties (so that p.sum() and
+        p[order].cumsum()[-1], computed in different orders, round differently), stored in double or single precision,
+        zero weights anywhere (in front, between, behind the positive ones), and an offset at the very top of
+        [0, spacing) (genuine MT19937 states whose next variate is 1 - r*2^-53, or a scripted quantile 1 - 2^-m): the
+        last pointer then lies at or beyond the end of the running cumulative weights"""
+        n = rng.choice([3, 5, 5, 9, 9, 12, 20, 20, 50])
+        vals = rng.choice(self.TIE_SETS)
+        if rng.random() < 0.2:
+            vals = [round(rng.uniform(0.05, 3.0), rng.choice([1, 2])) for _ in range(rng.randint(1, 4))]
+        dt = rng.choice(["float64", "float32"])
+        cast = (lambda v: float(numpy.float32(v))) if dt == "float32" else float
+        p = [cast(rng.choice(vals)) for _ in range(n)]
+        zr = rng.choice([0.15, 0.3, 0.5])
+        for i in range(n):
+            if rng.random() < zr:
+                p[i] = 0.0
+        if rng.random() < 0.5:
+            p[0] = 0.0                               # a zero in front of every positive weight
+        if rng.random() < 0.2:
+            p[-1] = 0.0
+        if not any(p):
+            p[rng.randrange(n)] = cast(vals[0])
+        if all(p[i] == 0 for i in range(n - 1)) and n > 1:
+            p[rng.randrange(n - 1)] = cast(vals[-1])
+        k = rng.choice([1, 2, 3, 5, 7, 12, 29, 64])
+        r = rng.random()
+        if r < 0.6:
+            spec = {"gen": rng.choice(["randomstate", "mt19937"]), "seed": rng.randrange(1 << 30), "craft": [M32, M32]}
+        elif r < 0.75:
+            spec = {"gen": rng.choice(["randomstate", "mt19937"]), "seed": rng.randrange(1 << 30),
+                    "craft": [M32, M32 - 64 * rng.randint(1, 9)]}
+        else:
+            spec = {"gen": "scripted", "seed": rng.randrange(1 << 30),
+                    "u": canon.enc(1 - Fraction(1, 1 << rng.choice([6, 8, 12, 20, 30, 52])))}
+        c = {"kind": "sus", "p": canon.enc(p), "a": rng.sample(range(-50, 400), n), "size": self._size(rng, k),
+             "rng": spec, "regime": "float"}
+        if dt == "float32":
+            c["pdtype"] = "float32"
+        if rng.random() < 0.08:
+            c["playout"] = rng.choice(["strided", "rev"])
+        return c
+
+    def _gen_sus_big(self, rng):
+        """thousands of tied weights in single (rarely double) precision with zeros spread over the vector: the running
+        float32 cumulative sum and the pairwise float32 total differ by up to ~2e-4 of the total, i.e. by a sizeable
+        part of the pointer spacing.  The request stays small against the number of positive weights (spacing >= 3 x
+        the largest weight), where the clause is robust: every expected count is below 1/2, an element may be drawn 0
+        or 1 times and a zero-weight element never.  Spec only (evaluated in exact arithmetic in Python)."""
+        n = rng.choice([2000, 5000, 10000, 20000, 20000, 20000])
+        dt = "float32" if rng.random() < 0.85 else "float64"
+        cast = (lambda v: float(numpy.float32(v))) if dt == "float32" else float
+        w = [cast(v) for v in rng.choice([[0.1], [0.2], [1.1], [0.7], [0.3], [0.1, 0.2], [1.1, 0.7, 0.3]])]
+        c = {"kind": "sus", "big": True, "n": n, "w": canon.enc(w), "pdtype": dt, "regime": "float"}
+        if rng.random() < 0.6:
+            c["zero_every"] = rng.choice([2, 3, 7, 10])
+            c["zero_phase"] = rng.randrange(c["zero_every"])
+        else:
+            c["zero_seed"] = rng.randrange(1 << 30)
+            c["zero_frac"] = canon.enc(Fraction(rng.choice([1, 2, 3, 5]), 10))
+        p = _big_p(c)
+        npos = int(numpy.count_nonzero(p))
+        tot = sum(Fraction(float(v)) * int((p == v).sum()) for v in numpy.unique(p))
+        kmax = max(1, int(tot / (3 * Fraction(float(p.max())))))
+        k = rng.randint(max(1, kmax // 4), kmax)
+        c["size"] = self._size(rng, k) if k < 300 else rng.choice([k, [k]])
+        if k >= 300 and k % 10 == 0 and rng.random() < 0.5:
+            c["size"] = [k // 10, 10]
+        if rng.random() < 0.5:
+            c["rng"] = {"gen": "scripted", "seed": rng.randrange(1 << 30),
+                        "u": canon.enc(1 - Fraction(1, 1 << rng.choice([1, 2, 3, 4, 6, 10])))}
+        else:
+            c["rng"] = self._rng_spec(rng)
+        return c
+
     def _gen_sus(self, rng, tier="quick"):
         r0 = rng.random()
         if r0 < 0.035:
             return self._call_forms(rng, self._gen_sus_large(rng, tier))
         if r0 < 0.09:
             return self._call_forms(rng, self._gen_sus_offset(rng))
+        if r0 < 0.15:
+            return self._call_forms(rng, self._gen_sus_top(rng))
+        if r0 < 0.18:
+            return self._gen_sus_big(rng)
         n = rng.choice([1, 2, 2, 3, 3, 4, 5, 6, 9])
         a = rng.sample(range(-50, 200), n)
         style = rng.random()
@@ -775,7 +995,31 @@ class C17(Prop):
         c["axis"] = [neg(a) for a in ax] if isinstance(ax, list) else neg(ax)
         return c
 
+    def _gen_outcross_selfed(self, rng):
+        """few parents tiled over many selfed crosses (a selection of 2-4 parents, each cross a self or nearly so): the
+        descent needs several accepted exchanges, the same individual sits at many positions of different crosses at
+        the start, and what a position holds changes on the way (so anything computed once from the initial content -
+        a pruned candidate list, a cached score - is stale later)"""
+        nrow, ncol = rng.choice([(4, 2), (4, 2), (5, 2), (6, 2), (6, 2), (8, 2), (4, 3), (5, 3), (6, 3), (6, 3), (8, 3)])
+        ids = rng.choice([3, 3, 4, 4, 2, 5])
+        pr = rng.choice([1.0, 1.0, 0.85, 0.7])
+        x = []
+        for _ in range(nrow):
+            v = rng.randrange(ids)
+            x.extend([v] * ncol if rng.random() < pr else [rng.randrange(ids) for _ in range(ncol)])
+        if rng.random() < 0.3:                     # the balanced variant: every parent in the same number of crosses
+            x = []
+            for r in range(nrow):
+                x.extend([r % ids] * ncol)
+        if rng.random() < 0.05:
+            off = rng.choice([127, 255, 65535])
+            x = [v + off for v in x]
+        layout = rng.choice(["C"] * 8 + ["F", "colslice", "strided", "neg"])
+        return {"kind": "outcross", "nrow": nrow, "ncol": ncol, "x": x, "layout": layout, "rng": self._rng_spec(rng)}
+
     def _gen_outcross(self, rng):
+        if rng.random() < 0.3:
+            return self._gen_outcross_selfed(rng)
         nrow = rng.choice([1, 2, 2, 3, 3, 4, 5, 6])
         ncol = rng.choice([1, 2, 2, 2, 3, 4])
         while nrow * ncol > (24 if rng.random() < 0.1 else 16):
@@ -838,7 +1082,7 @@ class C17(Prop):
         steps = []
         if kind == "sus":
             first = self._gen_sus(rng, "quick")
-            while len(first["p"]) > 9 or _prod(_size_list(first["size"])) > 64:
+            while first.get("big") or len(first["p"]) > 9 or _prod(_size_list(first["size"])) > 64:
                 first = self._gen_sus(rng, "quick")
             steps.append(first)
             for _ in range(rng.choice([1, 2])):
@@ -885,7 +1129,7 @@ class C17(Prop):
                 out.append(self._gen_seq(rng, tier))
             elif r < 0.43:
                 c = self._gen_sus(rng, tier)
-                if rng.random() < 0.02:
+                if rng.random() < 0.02 and not c.get("big"):
                     c["size"] = rng.choice([0, [0], [2, 0], [0, 3]])     # an empty request
                 out.append(c)
             elif r < 0.62:
@@ -932,7 +1176,11 @@ class C17(Prop):
                         "sigma": [int(v) for v in p.argsort()[::-1]], "perm": [],
                         "inputs_untouched": untouched}
             orc = _sus_oracle(case)
-            return {"out": [int(v) for v in out.ravel()], "shape": [int(v) for v in out.shape],
+            if case.get("big"):     # long vectors: Spec only (the sort order and the shuffle are not handed to the model)
+                return {"out": [int(v) for v in out.ravel()], "shape": [int(v) for v in out.shape],
+                        "offset": canon.enc(orc["offset"]), "inputs_untouched": untouched,
+                        "ptr_beyond_cumsum": orc["ptr_beyond_cumsum"]}
+            return {"out": _outvals(case, out), "shape": [int(v) for v in out.shape],
                     "offset": canon.enc(orc["offset"]), "sigma": orc["sigma"], "perm": orc["perm"],
                     "inputs_untouched": untouched}
         if k == "tiled":
@@ -950,7 +1198,7 @@ class C17(Prop):
                 out = numpy.asarray(S.tiled_choice(a, _size_call(case), case["replace"], p, r))
             orc = _tiled_oracle(case)
             untouched = bool((a0 == a).all() and self._pads_ok(a, -99) and (p is None or (p0 == p).all()))
-            return {"out": [int(v) for v in out.ravel()], "shape": [int(v) for v in out.shape],
+            return {"out": _outvals(case, out), "shape": [int(v) for v in out.shape],
                     "draw": orc["draw"], "perm": orc["perm"], "inputs_untouched": untouched}
         if k == "tiled_addon":
             import pybrops.opt.algo.pymoo_addon as addon
@@ -1035,6 +1283,8 @@ class C17(Prop):
             for c, o in zip(case["steps"], obs["steps"]):
                 out.extend(self.requests(c, o))
             return out
+        if k == "sus" and case.get("big"):
+            return []
         if k == "sus":
             size = _size_list(case["size"])
             return [{"op": "c17.sus", "p": case["p"], "a": case["a"], "size": size, "sigma": obs["sigma"],
@@ -1076,6 +1326,24 @@ class C17(Prop):
 
     # ------------------------------------------------------------------ judge
     @staticmethod
+    def _exact_p(case):
+        """the weights as exact rationals (a compactly described long vector is expanded)"""
+        if case.get("big"):
+            return [Fraction(float(x)) for x in _big_p(case)]
+        return [Fraction(v) for v in case["p"]]
+
+    @staticmethod
+    def _sigma(case, obs):
+        return obs["sigma"] if "sigma" in obs else [int(v) for v in _parr(case).argsort()[::-1]]
+
+    @staticmethod
+    def _unit_roundoff(case):
+        """unit roundoff of the least precise arithmetic of the call: the total and the cumulative weights are
+        computed in the dtype of the weights (float32 stays float32; integers are summed exactly), everything else in
+        binary64"""
+        return Fraction(1, 1 << 24) if case.get("pdtype") == "float32" else Fraction(1, 1 << 53)
+
+    @staticmethod
     def _near_tie(case, obs):
         """binary64 regime only: is some pointer within rounding distance of a boundary of the cumulative
         weights (or the offset within rounding distance of 0 / of the spacing)?  Then the exact model and
@@ -1086,6 +1354,8 @@ class C17(Prop):
         d = tot / k
         o = Fraction(obs["offset"])
         eps = tot / (1 << 40)
+        if case.get("pdtype") == "float32":     # single-precision total / cumulative weights: n roundings of 2^-24 each
+            eps = tot * (len(p) + 2) / (1 << 23)
         if o <= eps or d - o <= eps:
             return True
         cs, s = [], Fraction(0)
@@ -1112,28 +1382,38 @@ class C17(Prop):
         eps = max((1+u)^n - 1, (1+u)^3 (1+gamma) - 1) * sum(p); it needs every exact pointer more than 2*eps away
         from every exact cumulative boundary before the last element of positive weight, and the exact offset in
         [0, exact spacing).  Everything is recomputed from the case in exact arithmetic."""
-        p = [Fraction(v) for v in case["p"]]
+        p = C17._exact_p(case)
         k = _prod(_size_list(case["size"]))
         if k == 0:
             return ""
+        import bisect
         tot = sum(p)
         d = tot / k
         o = Fraction(obs["offset"])
         n = len(p)
-        u = Fraction(1, 1 << 53)
-        gamma = (1 + u) ** (n - 1) - 1
-        eps = max((1 + u) ** n - 1, (1 + u) ** 3 * (1 + gamma) - 1) * tot
+        u = C17._unit_roundoff(case)
+        if n <= 400:
+            gamma = (1 + u) ** (n - 1) - 1
+            eps = max((1 + u) ** n - 1, (1 + u) ** 3 * (1 + gamma) - 1) * tot
+        else:
+            # long vectors: an upper bound of the same quantity, (1+u)^m - 1 <= m*u / (1 - m*u); a larger eps only makes
+            # the statement "the theorem applies" rarer
+            m = n + 2
+            eps = (m * u / (1 - m * u)) * tot
         last = sum(1 for v in p if v != 0) - 1
         cs, acc = [], Fraction(0)
-        for i in obs["sigma"][:max(last, 0)]:
+        for i in C17._sigma(case, obs)[:max(last, 0)]:
             acc += p[i]
             cs.append(acc)
         if not (0 <= o < d):
             return "[fl theorem: n/a, offset not below the exact spacing]"
-        gap = min((abs(o + j * d - c) for j in range(k) for c in cs), default=None)
-        if gap is None or gap > 2 * eps:
-            return "[fl theorem applies]"
-        return "[fl theorem: n/a, a pointer is within 2*eps of an interior boundary (tie)]"
+        for j in range(k):                  # cs ascends: the nearest boundaries of a pointer are its two neighbours
+            t = o + j * d
+            q = bisect.bisect_left(cs, t)
+            for c in cs[max(q - 1, 0):q + 1]:
+                if abs(t - c) <= 2 * eps:
+                    return "[fl theorem: n/a, a pointer is within 2*eps of an interior boundary (tie)]"
+        return "[fl theorem applies]"
 
     @staticmethod
     def _binary64_inexact(case, obs):
@@ -1141,13 +1421,13 @@ class C17(Prop):
         differ from its exact value?  Recomputed the way the code computes them, from the case alone."""
         p = _parr(case)
         k = _prod(_size_list(case["size"]))
-        P = [Fraction(v) for v in case["p"]]
+        P = C17._exact_p(case)
         T = sum(P)
         D = T / k
         off = float(Fraction(obs["offset"]))
         tot = p.sum()
         d = tot / numpy.int64(k)
-        sigma = obs["sigma"]
+        sigma = C17._sigma(case, obs)
         cs = p[numpy.array(sigma)].cumsum()
         ptrs = off + d * numpy.arange(k)
         acc, CS = Fraction(0), []
@@ -1176,9 +1456,21 @@ class C17(Prop):
             if "err" in a:
                 raise RuntimeError("driver error: " + a["err"])
         ans = [a["ok"] for a in answers]
+        if k == "sus" and case.get("big"):
+            size = _size_list(case["size"])
+            shape_ok = obs["shape"] == size
+            s = _big_spec(case, obs["out"], obs["shape"])
+            return {"corr": bool(obs["inputs_untouched"]), "spec": bool(s["ok"]) and shape_ok, "nontrivial": True,
+                    "parts": s, "shape_ok": shape_ok,
+                    "detail": f"sus (long vector, n={case['n']}, Spec only) shape_ok={shape_ok} "
+                              f"spec={ {x: s[x] for x in s if x != 'ok'} } offset={obs['offset']} "
+                              f"pointer_beyond_cumsum={obs.get('ptr_beyond_cumsum')}"}
         if k == "sus":
             m, s = ans
             size = _size_list(case["size"])
+            py = _small_spec(case, obs["out"])
+            if any(py[x] != s[x] for x in py):
+                raise RuntimeError(f"c17.spec_sus disagrees with the exact-arithmetic evaluation: {py} vs {s}")
             shape_ok = obs["shape"] == size
             corr = m.get("out") == obs["out"] and obs["inputs_untouched"]
             note = ""
@@ -1313,6 +1605,10 @@ class C17(Prop):
                 if len(case["steps"]) > 1:
                     yield {"kind": "seq", "steps": case["steps"][:i] + case["steps"][i + 1:]}
             return
+        if k == "sus" and case.get("big"):
+            if case["n"] > 2000:
+                yield dict(case, n=case["n"] // 2, size=max(1, _prod(_size_list(case["size"])) // 2))
+            return
         if k == "sus":
             def keeps_regime(c):
                 # an "exact" case stays one in which every binary64 operation of the call is exact (dyadic spacing);
@@ -1394,7 +1690,7 @@ class C17(Prop):
 
         def sus_variant(fixed_offset=False, rule=None, ascending=False, noshuffle=False, ptr_skip=False,
                         linspace=False, empty_ok=True, neg_stable=False, zero_isclose=False, tolerant=False,
-                        wrap1024=False, cumsum_dtype=False, int8_counts=False):
+                        wrap1024=False, cumsum_dtype=False, int8_counts=False, last_orig=False):
             """the function as it is (after fix fc545079) with one thing changed"""
             def f(a, p, size=None, rng=None):
                 if rng is None:
@@ -1426,6 +1722,8 @@ class C17(Prop):
                 last = (len(p) - 1) if ascending else (numpy.count_nonzero(p) - 1)
                 if zero_isclose:        # 'zero weight' decided with a tolerance
                     last = numpy.count_nonzero(~numpy.isclose(p, 0.0)) - 1
+                if last_orig:           # seeded change C17-e3: the guard is the position of the last positive weight in
+                    last = numpy.flatnonzero(p)[-1]     # the ORIGINAL order (right only when all zeros are at the end)
                 lo = (off < 0.5 * d) if rule is None else (rule == "le")
                 for j, ptr in enumerate(ptrs):
                     if ptr_skip and j == len(ptrs) - 1 and k > 1:
@@ -1648,6 +1946,31 @@ class C17(Prop):
                     xr[i], xr[j] = xr[j], xr[i]
                 it = not loc
 
+        def outcross_stale_candidates(xconfig, rng=None):
+            """seeded change C17-c3: the candidate list is built once and leaves out the pairs of positions that hold the
+            same individual AT THAT MOMENT; after accepted exchanges those positions hold different individuals, but the
+            pair is never tried"""
+            if rng is None:
+                rng = S.global_prng
+            def objfn(x):
+                return sum(len(r) - len(numpy.unique(r)) for r in x)
+            xr = xconfig.flat
+            best = objfn(xconfig)
+            ex = numpy.array([[i, j] for i in range(len(xr)) for j in range(i + 1, len(xr)) if xr[i] != xr[j]])
+            it = True
+            while it:
+                rng.shuffle(ex)
+                loc = True
+                for i, j in ex:
+                    xr[i], xr[j] = xr[j], xr[i]
+                    sc = objfn(xconfig)
+                    if sc < best:
+                        best = sc
+                        loc = False
+                        break
+                    xr[i], xr[j] = xr[j], xr[i]
+                it = not loc
+
         def outcross_overwrite(xconfig, rng=None):
             if rng is None:
                 rng = S.global_prng
@@ -1710,7 +2033,11 @@ class C17(Prop):
             ("axis_noncontiguous_written_back_in_F_order", lambda: patch(S, "axis_shuffle", axis_noncontig_writeback)),
             ("outcross_ids_compared_as_int16", lambda: patch(S, "outcross_shuffle", outcross_variant(int16=True))),
         ]
-        return round4 + [
+        round5 = [
+            ("sus_guard_last_positive_in_original_order", lambda: patch(S, sus, sus_variant(last_orig=True))),
+            ("outcross_candidate_list_pruned_once_by_content", lambda: patch(S, "outcross_shuffle", outcross_stale_candidates)),
+        ]
+        return round5 + round4 + [
             ("sliceaxisix_reversed_order", lambda: patch2("sliceaxisix", slices_variant(reverse=True))),
             ("sliceaxisix_skips_last_index", lambda: patch2("sliceaxisix", slices_variant(skip_last=True))),
             ("sliceaxisix_assumes_ascending_axes", lambda: patch2("sliceaxisix", slices_head_only)),
